@@ -199,6 +199,91 @@ Proof.
     pose proof (H2 exp He). nia.
 Qed.
 
+(** * the lower side of the scaling estimate: 10^(est s - 1) <= 2^(s - 1) *)
+Definition pow10_le_pow2 (k s : Z) : bool :=
+  if 0 <=? k then
+    (if 0 <=? s then 10 ^ k <=? 2 ^ s else 10 ^ k * 2 ^ (- s) <=? 1)
+  else
+    (if 0 <=? s then true else 2 ^ (- s) <=? 10 ^ (- k)).
+
+Definition est_ok2 (s : Z) : bool := pow10_le_pow2 (est s - 1) (s - 1).
+
+Lemma est_ok2_all : forallb est_ok2 s_range = true.
+Proof. vm_compute. reflexivity. Qed.
+
+Lemma est_ok2_range : forall s, -1100 <= s <= 1100 -> est_ok2 s = true.
+Proof.
+  intros s Hs. pose proof est_ok2_all as H. rewrite forallb_forall in H. apply H.
+  unfold s_range. apply in_map_iff. exists (Z.to_nat (s + 1100)). split; [cbn beta; lia|].
+  apply in_seq. lia.
+Qed.
+
+Lemma bitlen_lower : forall x, 2 <= x -> 2 ^ (bitlen (x - 1) - 1) < x.
+Proof.
+  intros x Hx. unfold bitlen. destruct (x - 1 <=? 0) eqn:E; [apply Z.leb_le in E; lia|].
+  pose proof (Z.log2_spec (x - 1) ltac:(lia)) as [Hlo _].
+  replace (Z.log2 (x - 1) + 1 - 1) with (Z.log2 (x - 1)) by lia. lia.
+Qed.
+
+(** [10^(k0-1) <= x * 2^exp] in the sign combinations in which it is needed: without the bump of the
+    exponent, ten times the scaled upper bound is at least the scale *)
+Lemma estimate_lower : forall x exp nbits,
+  2 <= x -> 2 ^ (nbits - 1) < x -> 1 <= nbits -> -1100 <= nbits + exp <= 1100 ->
+  let k0 := est (nbits + exp) in
+  (exp < 0 -> k0 < 0 -> 2 ^ (- exp) <= x * 10 ^ (- k0) * 10) /\
+  (exp < 0 -> 0 <= k0 -> 2 ^ (- exp) * 10 ^ k0 <= x * 10) /\
+  (0 <= exp -> 0 <= k0 -> 10 ^ k0 <= x * 2 ^ exp * 10).
+Proof.
+  intros x exp nbits Hx Hxn Hnb Hs k0.
+  pose proof (est_ok2_range (nbits + exp) Hs) as Hok. unfold est_ok2 in Hok. fold k0 in Hok.
+  set (s := nbits + exp) in *. unfold pow10_le_pow2 in Hok.
+  assert (H10 : forall n, 0 <= n -> 0 < 10 ^ n) by (intros; apply Z.pow_pos_nonneg; lia).
+  assert (H2 : forall n, 0 <= n -> 0 < 2 ^ n) by (intros; apply Z.pow_pos_nonneg; lia).
+  repeat split.
+  - (* exp < 0, k0 < 0 *)
+    intros He Hk. assert (Ek : (0 <=? k0 - 1) = false) by (apply Z.leb_gt; lia). rewrite Ek in Hok.
+    assert (Hk' : 10 ^ (- (k0 - 1)) = 10 ^ (- k0) * 10).
+    { replace (- (k0 - 1)) with (Z.succ (- k0)) by lia. rewrite Z.pow_succ_r by lia. ring. }
+    pose proof (H10 (- k0) ltac:(lia)) as Ht.
+    destruct (0 <=? s - 1) eqn:Es; [apply Z.leb_le in Es|apply Z.leb_gt in Es].
+    + (* 2^(s-1) >= 1: 2^-exp <= 2^(nbits-1) < x *)
+      assert (2 ^ (- exp) <= 2 ^ (nbits - 1)) by (apply Z.pow_le_mono_r; unfold s in Es; lia). nia.
+    + apply Z.leb_le in Hok. rewrite Hk' in Hok.
+      assert (Hn : 2 ^ (- exp) = 2 ^ (nbits - 1) * 2 ^ (- (s - 1))) by (rewrite <- Z.pow_add_r by lia; f_equal; unfold s; lia).
+      pose proof (H2 (nbits - 1) ltac:(lia)). pose proof (H2 (- (s - 1)) ltac:(lia)). rewrite Hn. nia.
+  - (* exp < 0, 0 <= k0 *)
+    intros He Hk. pose proof (H2 (- exp) ltac:(lia)) as Hs2.
+    destruct (Z.eq_dec k0 0) as [Hk0|Hk0].
+    + subst k0. rewrite Hk0, Z.pow_0_r, Z.mul_1_r.
+      (* est s = 0 gives s - 1 >= -1 ... use the check with k0 - 1 = -1 *)
+      rewrite Hk0 in Hok. change (0 <=? 0 - 1) with false in Hok. cbv iota in Hok.
+      destruct (0 <=? s - 1) eqn:Es; [apply Z.leb_le in Es|apply Z.leb_gt in Es].
+      * assert (2 ^ (- exp) <= 2 ^ (nbits - 1)) by (apply Z.pow_le_mono_r; unfold s in Es; lia). nia.
+      * apply Z.leb_le in Hok. change (- (0 - 1)) with 1 in Hok. rewrite Z.pow_1_r in Hok.
+        assert (Hn : 2 ^ (- exp) = 2 ^ (nbits - 1) * 2 ^ (- (s - 1))) by (rewrite <- Z.pow_add_r by lia; f_equal; unfold s; lia).
+        pose proof (H2 (nbits - 1) ltac:(lia)). rewrite Hn. nia.
+    + assert (Ek : (0 <=? k0 - 1) = true) by (apply Z.leb_le; lia). rewrite Ek in Hok.
+      assert (Hk' : 10 ^ k0 = 10 ^ (k0 - 1) * 10).
+      { replace k0 with (Z.succ (k0 - 1)) at 1 by lia. rewrite Z.pow_succ_r by lia. ring. }
+      pose proof (H10 (k0 - 1) ltac:(lia)) as Ht.
+      destruct (0 <=? s - 1) eqn:Es; [apply Z.leb_le in Es|apply Z.leb_gt in Es]; apply Z.leb_le in Hok.
+      * assert (Hn : 2 ^ (nbits - 1) = 2 ^ (s - 1) * 2 ^ (- exp)) by (rewrite <- Z.pow_add_r by lia; f_equal; unfold s; lia).
+        rewrite Hk'. nia.
+      * (* 10^(k0-1) * 2^-(s-1) <= 1 forces both factors to be 1 *)
+        assert (Hn : 2 ^ (- exp) = 2 ^ (nbits - 1) * 2 ^ (- (s - 1))) by (rewrite <- Z.pow_add_r by lia; f_equal; unfold s; lia).
+        pose proof (H2 (nbits - 1) ltac:(lia)). pose proof (H2 (- (s - 1)) ltac:(lia)). rewrite Hk', Hn. nia.
+  - (* 0 <= exp, 0 <= k0 *)
+    intros He Hk. pose proof (H2 exp He) as Hs2.
+    destruct (Z.eq_dec k0 0) as [Hk0|Hk0].
+    + rewrite Hk0, Z.pow_0_r. nia.
+    + assert (Ek : (0 <=? k0 - 1) = true) by (apply Z.leb_le; lia). rewrite Ek in Hok.
+      assert (Es : (0 <=? s - 1) = true) by (apply Z.leb_le; unfold s; lia). rewrite Es in Hok. apply Z.leb_le in Hok.
+      assert (Hk' : 10 ^ k0 = 10 ^ (k0 - 1) * 10).
+      { replace k0 with (Z.succ (k0 - 1)) at 1 by lia. rewrite Z.pow_succ_r by lia. ring. }
+      assert (Hn : 2 ^ (s - 1) = 2 ^ (nbits - 1) * 2 ^ exp) by (rewrite <- Z.pow_add_r by lia; f_equal; unfold s; lia).
+      pose proof (H2 (nbits - 1) ltac:(lia)). rewrite Hk'. nia.
+Qed.
+
 (** * the whole of [dragon_shortest] *)
 
 (** the fuel of the digit loop (1100) covers every scale a binary64 can produce: [plus] is multiplied by
